@@ -456,6 +456,17 @@ HReadAheadOK(r) == r.rem >= 3 => r.reads < r.rem
 \* C07: termination
 HOutcomeOK(r) == r.outcome = "ok"     \* not "hang" (Close or Scan did not return), "leak" (goroutines left), "crash"
 
+\* C09: a new scanner started at a reported offset (the start of data block `from`), where the first block is a data
+\* block instead of a header, yields exactly the remaining objects beginning with the first object of that block
+SuffixErr(c, k) == LET bad == {j \in k .. Len(c.blocks) : c.blocks[j].k # "data"} IN
+                   IF bad = {} THEN c.endkind
+                   ELSE (LET fb == CHOOSE j \in bad : \A i \in bad : j <= i IN IF c.blocks[fb].k = "bad" THEN "decode" ELSE "type")
+HResumeOK(r) == \A i \in 1 .. Len(r.resume) :
+                   LET e == r.resume[i] IN
+                   /\ e.from \in 1 .. Len(r.cfg.blocks)
+                   /\ [j \in 1 .. Len(e.objs) |-> <<e.objs[j][1], e.objs[j][2]>>] = Flat(r.cfg.blocks, e.from)
+                   /\ ErrCls(e.err) = ErrCls(SuffixErr(r.cfg, e.from))
+
 RunWhy(r) ==
   (IF HPrefixOK(r.cfg, r.H) THEN {} ELSE {"order: delivered objects are not a prefix of the file's objects"}) \cup
   (IF HCompleteOK(r.cfg, r.H) THEN {} ELSE {"complete: scan ended by itself without delivering every object"}) \cup
@@ -463,10 +474,11 @@ RunWhy(r) ==
   (IF HOffsOK(r.cfg, r.H) THEN {} ELSE {"offsets: FullyScannedBytes/PreviousFullyScannedBytes wrong"}) \cup
   (IF HErrOK(r.cfg, r.H) THEN {} ELSE {"err: Err() class not allowed by the precedence rule"}) \cup
   (IF HReadAheadOK(r) THEN {} ELSE {"readahead: input consumed to the end after the stop"}) \cup
+  (IF HResumeOK(r) THEN {} ELSE {"resume: scanner restarted at a reported offset did not yield exactly the remaining objects"}) \cup
   (IF HOutcomeOK(r) THEN {} ELSE {"outcome: " \o r.outcome})
 RunOK(r) == RunWhy(r) = {}
 
 \* the Model's own history must satisfy the history Judge (guards the Judge against over-strictness)
-ModelRun == [cfg |-> cfg, H |-> hist, reads |-> readsAfterStop, rem |-> 3, outcome |-> "ok"]
+ModelRun == [cfg |-> cfg, H |-> hist, reads |-> readsAfterStop, rem |-> 3, outcome |-> "ok", resume |-> << >>]
 HistInv == RunOK(ModelRun)
 =============================================================================
